@@ -65,5 +65,8 @@ def rust_inst(prog, ty='u8', const='3'):
     parts = []
     for g in prog.generics_use.strip('<>').split(','):
         g = g.strip()
-        parts.append(ty if g in prog.type_params else const)
+        if g.startswith("'"):
+            parts.append("'static")
+        else:
+            parts.append(ty if g in prog.type_params else const)
     return '<' + ', '.join(parts) + '>'
